@@ -51,7 +51,10 @@ package verifier
 //@ func (*LogStore).triggerVerify
 //@   props C18
 //@   requires s.metrics != nil
+//@   assigns g_trig
+//@   ghostinit g_trig_in = g_trig
 //@   ensures[C18.never-blocks] !effect("blocking")
+//@   ghostset g_trig = g_trig + 1
 //@   ensures[C18.one-report-or-drop] (traced("select:send:0") && nevent("call:metrics.Collector.IncrementCounter") == 0) || (traced("select:default") && nevent("call:metrics.Collector.IncrementCounter") == 1)
 
 //@ func (*LogStore).FirstIndex
@@ -77,9 +80,10 @@ package verifier
 //@   ensures[C18.transparent-store] len(logs) >= 1 && result == nil ==> nevent("call:raft.LogStore.StoreLogs") == 1
 //@   ensures[C18.store-error-passthrough] nevent("call:raft.LogStore.StoreLogs") == 1 ==> result == g_under_err
 //@   ensures[C18.never-blocks] !effect("blocking")
-//@   ensures[C18.no-report-before-store] result != nil ==> !traced("select:send:0")
+//@   ensures[C18.no-report-before-store] result != nil ==> !traced("select:send:0") && g_trig == old(g_trig)
+//@   ensures[C18.every-checkpoint-triggered] result == nil && len(logs) >= 1 ==> g_trig == old(g_trig) + len(triggeredReports)
 //@   loop 1 invariant s.checksum == old(s.checksum) && s.sumStartIdx == old(s.sumStartIdx)
-//@   loop 2 invariant true
+//@   loop 2 invariant g_trig == old(g_trig) + rangeindex + 1 && rangeindex < len(triggeredReports)
 
 //@ func (*LogStore).DeleteRange
 //@   props C16 C18
